@@ -40,7 +40,7 @@ Theorem C16_ro_step : forall n a, ro_inv n -> safe_act a = true ->
   let x := step_act n a in
   ro_inv (fst x) /\
   match a with
-  | AClient c => eng (fst x) = eng n /\ (must_reject n c = true -> ro_class (snd x) = true)
+  | AClient c => eng (fst x) = maint c (eng n) /\ (must_reject n c = true -> ro_class (snd x) = true)
   | ARepl r => (eng (fst x), snd x) = apply_eng (eng n) r
   | ASetRO _ => eng (fst x) = eng n
   end.
@@ -55,7 +55,8 @@ Proof. exact safe_act_exceptions. Qed.
 Print Assumptions C16_safe_acts.
 
 (* every interleaving of client calls with replication apply: the data is exactly what the
-   applied entries make it, every mutation attempt got a read-only error *)
+   applied entries make it (repl_only also lists one flush per Compact(force): maintenance, not
+   a data change), every mutation attempt got a read-only error *)
 Theorem C16_ro_trace : forall l n, ro_inv n -> forallb safe_act l = true ->
   let x := run_acts n l in
   ro_inv (fst x) /\ eng (fst x) = run_repl (eng n) (repl_only l) /\ all_rejected n l.
@@ -71,6 +72,10 @@ Theorem C16_apply_expand : forall n r b,
   expand b r = [ARepl r] /\ fst (run_acts n (expand b r)) = fst (step_repl n r).
 Proof. exact expand_uninterrupted. Qed.
 Print Assumptions C16_apply_expand.
+
+Theorem C16_merge_no_effect : forall n k v, step_repl n (RMergeE k v) = (n, ROk).
+Proof. exact merge_no_effect. Qed.
+Print Assumptions C16_merge_no_effect.
 
 Theorem C16_reads : forall n k univ,
   node_get n k = get (eng n) k /\ node_scan n univ = node_scan (set_ro n (negb (ro n))) univ.
